@@ -1,4 +1,4 @@
-import MypyVerif.Proofs.TypesTrans
+import MypyVerif.Proofs.TypesSimp
 /-!
 # C08 — the type lattice obeys its laws (for the modelled fragment)
 
@@ -76,5 +76,32 @@ example : let a := Ty.callable [.union [.inst 4, .none]] (.gen 6 (.inst 5))
           a.wf demoH = true ∧ b.wf demoH = true ∧ c.wf demoH = true
           ∧ a.noFunc demoH = true ∧ b.noFunc demoH = true ∧ c.noFunc demoH = true
           ∧ isSubtype demoH a b = true ∧ isSubtype demoH b c = true ∧ a ≠ b ∧ b ≠ c := by decide
+
+/-- **simplify_equiv**: `make_simplified_union(items)` is equivalent (mutual subtyping) to the plain union of
+    the items — any well-formed, non-degenerate item list (some item must have a leaf: `Union[()]` alone has
+    no subtype at all in the code, not even Never). -/
+theorem simplify_equiv (H : Hier) (hok : H.ok = true) (items : List Ty)
+    (hw : ∀ t ∈ items, t.wf H = true) (hne : flattenL items ≠ []) :
+    isSubtype H (simplifyUnion H items) (.union items) = true ∧
+    isSubtype H (.union items) (simplifyUnion H items) = true :=
+  simplify_equiv_S (H.ok_sound hok) items (wfL_iff.2 hw) hne
+
+/-- the literal fast path of `_remove_redundant_union_items` keeps a redundant literal:
+    `[Literal[1], int, Literal[2]]` simplifies to `Literal[1] | int | Literal[2]` — still equivalent -/
+example : simplifyUnion demoH [.lit 4 2, .inst 4, .lit 4 4] = .union [.lit 4 2, .inst 4, .lit 4 4]
+    ∧ simplifyUnion demoH [.inst 5, .none, .inst 4, .never] = .union [.none, .inst 4] := by decide
+
+/-- **simplify_perm**: permuting the items gives an equivalent result. -/
+theorem simplify_perm (H : Hier) (hok : H.ok = true) (items items' : List Ty)
+    (hw : ∀ t ∈ items, t.wf H = true) (hp : items.Perm items') :
+    isSubtype H (simplifyUnion H items) (simplifyUnion H items') = true ∧
+    isSubtype H (simplifyUnion H items') (simplifyUnion H items) = true := by
+  have hw' : ∀ t ∈ items', t.wf H = true := fun t ht => hw t (hp.mem_iff.2 ht)
+  exact ⟨simplify_perm_S (H.ok_sound hok) items items' (wfL_iff.2 hw) (wfL_iff.2 hw') (fun t => hp.mem_iff),
+         simplify_perm_S (H.ok_sound hok) items' items (wfL_iff.2 hw') (wfL_iff.2 hw) (fun t => hp.mem_iff.symm)⟩
+
+/-- the results really differ syntactically between orders (so the statement is about equivalence) -/
+example : simplifyUnion demoH [.inst 4, .lit 4 2, .gen 6 (.inst 5)] ≠ simplifyUnion demoH [.gen 6 (.inst 5), .lit 4 2, .inst 4] := by
+  decide
 
 end Types
